@@ -436,7 +436,7 @@ impl Property for C05 {
                         1 => edit_an_input(sc, &mut case, target),
                         2 => alter_an_output(sc, &mut case, target),
                         _ => false,
-                    };
+                    } && !mtime_coincides(&b, case.clock);
                     interrupted = None;
                 }
                 Item::ZeroByte { target, idx } => {
@@ -448,7 +448,7 @@ impl Property for C05 {
                     let mut b = finals[target].clone();
                     b[*idx] = 0;
                     let _ = std::fs::write(&p, &b);
-                    edited_ok = alter_an_output(sc, &mut case, target);
+                    edited_ok = alter_an_output(sc, &mut case, target) && !mtime_coincides(&b, case.clock);
                     interrupted = None;
                 }
                 Item::Garbage { target, seed } => {
@@ -696,4 +696,15 @@ fn alter_an_output(sc: &Scenario, case: &mut Case, t: &Tid) -> bool {
         }
     }
     false
+}
+
+/// The damaged record may, by coincidence, hold exactly the modification time the harness just
+/// gave the altered file (a flipped bit turns tick 17 into tick 19, and 19 is the next tick):
+/// the mtime-or-content rule then legitimately says "unchanged". Serialised form of a
+/// `Duration`: seconds as u64 LE, nanoseconds as u32 LE.
+fn mtime_coincides(record: &[u8], tick: u64) -> bool {
+    let secs = (simrt::vfs::MTIME_BASE + tick as i64) as u64;
+    let mut pat = secs.to_le_bytes().to_vec();
+    pat.extend_from_slice(&0u32.to_le_bytes());
+    record.windows(pat.len()).any(|w| w == &pat[..])
 }
